@@ -230,3 +230,137 @@ Example C02_nonvacuous_session :
   /\ session [] [ (mkBR (-1) (-1) 0, []) ] = [ ([], true) ]
   /\ consistent [] (mkBR (-1) (-1) 0) [].
 Proof. exact session_example. Qed.
+
+(* ====================================================================================== *)
+(* ---- URL forms ----
+   ParseGcsUrl (storage/gcsemu/parse.go, model GCS/Url.v): the URLs a client builds for a
+   bucket b and an object name n parse back to (b, n).  Proofs are in GCS/UrlProofs.v.
+   ok_bucket b: non-empty, no '/', no newline;  ok_name n: non-empty, no newline.
+   a2b "..." is the byte string of an ASCII literal. *)
+From Coq Require String.
+Import String.StringSyntax.
+From Emu.GCS Require Import Url UrlProofs.
+
+(* JSON API object URL *)
+Theorem C02_url_roundtrip_json : forall b n, ok_bucket b = true -> ok_name n = true ->
+  parse_gcs_url (a2b "/storage/v1/b/" ++ b ++ a2b "/o/" ++ n) = Some (b, n, false).
+Proof. exact url_roundtrip_json. Qed.
+Print Assumptions C02_url_roundtrip_json.
+
+(* the same behind any prefix that does not contain "/s" *)
+Theorem C02_url_roundtrip_prefixed : forall pre b n,
+  prefix_clean pre = true -> ok_bucket b = true -> ok_name n = true ->
+  parse_gcs_url (pre ++ a2b "/storage/v1/b/" ++ b ++ a2b "/o/" ++ n) = Some (b, n, false).
+Proof. exact url_roundtrip_prefixed. Qed.
+Print Assumptions C02_url_roundtrip_prefixed.
+
+Theorem C02_url_roundtrip_download : forall b n, ok_bucket b = true -> ok_name n = true ->
+  parse_gcs_url (a2b "/download/storage/v1/b/" ++ b ++ a2b "/o/" ++ n) = Some (b, n, false).
+Proof. exact url_roundtrip_download. Qed.
+Print Assumptions C02_url_roundtrip_download.
+
+Theorem C02_url_roundtrip_upload : forall b n, ok_bucket b = true -> ok_name n = true ->
+  parse_gcs_url (a2b "/upload/storage/v1/b/" ++ b ++ a2b "/o/" ++ n) = Some (b, n, false).
+Proof. exact url_roundtrip_upload. Qed.
+Print Assumptions C02_url_roundtrip_upload.
+
+(* "/b/<bucket>/o/<name>": guard no_api_fragment n = "/" ++ n does not contain "/storage/v1/b"
+   (otherwise patterns 1/2 win: C02_url_roundtrip_b_refuted) *)
+Theorem C02_url_roundtrip_b : forall b n,
+  ok_bucket b = true -> ok_name n = true -> no_api_fragment n = true ->
+  parse_gcs_url (a2b "/b/" ++ b ++ a2b "/o/" ++ n) = Some (b, n, false).
+Proof. exact url_roundtrip_b. Qed.
+Print Assumptions C02_url_roundtrip_b.
+
+Theorem C02_url_roundtrip_b_refuted :
+  let b := a2b "bkt" in let n := a2b "storage/v1/b/other/o/y" in
+  ok_bucket b = true /\ ok_name n = true /\ no_api_fragment n = false
+  /\ parse_gcs_url (a2b "/b/" ++ b ++ a2b "/o/" ++ n) = Some (a2b "other", a2b "y", false).
+Proof. exact url_roundtrip_b_refuted. Qed.
+Print Assumptions C02_url_roundtrip_b_refuted.
+
+(* public URL "/<bucket>/<name>".  FULL statement (without public_guard) is false: GCS-8 below.
+   public_guard path: path contains neither "/storage/v1/b" nor "/b/" seg "/o" with a non-empty
+   slash-free seg (meaning of the two halves: C02_url_guard_api_meaning / _bseg_meaning) *)
+Theorem C02_url_roundtrip_public_partial : forall b n,
+  ok_bucket b = true -> ok_name n = true ->
+  public_guard (a2b "/" ++ b ++ a2b "/" ++ n) = true ->
+  parse_gcs_url (a2b "/" ++ b ++ a2b "/" ++ n) = Some (b, n, true).
+Proof. exact url_roundtrip_public_partial. Qed.
+Print Assumptions C02_url_roundtrip_public_partial.
+
+(* GCS-8: a public URL whose object name contains "/b/other/o/y" is served as another
+   bucket/object, not public *)
+Theorem C02_url_public_refuted :
+  let b := a2b "bkt" in let n := a2b "x/b/other/o/y" in
+  ok_bucket b = true /\ ok_name n = true
+  /\ public_guard (a2b "/" ++ b ++ a2b "/" ++ n) = false
+  /\ parse_gcs_url (a2b "/" ++ b ++ a2b "/" ++ n) = Some (a2b "other", a2b "y", false).
+Proof. exact url_public_refuted. Qed.
+Print Assumptions C02_url_public_refuted.
+
+(* names without '/' always meet the guard *)
+Theorem C02_url_roundtrip_public_flat : forall b n,
+  ok_bucket b = true -> ok_name n = true -> forallb not_slash n = true ->
+  parse_gcs_url (a2b "/" ++ b ++ a2b "/" ++ n) = Some (b, n, true).
+Proof. exact url_roundtrip_public_flat. Qed.
+Print Assumptions C02_url_roundtrip_public_flat.
+
+Theorem C02_url_guard_api_meaning : forall s lit,
+  contains s lit = true <-> exists p t, s = p ++ lit ++ t.
+Proof. exact contains_true_iff. Qed.
+Print Assumptions C02_url_guard_api_meaning.
+
+Theorem C02_url_guard_bseg_meaning : forall p,
+  has_bseg_o p = true <->
+  exists pre seg post, p = pre ++ a2b "/b/" ++ seg ++ a2b "/o" ++ post /\ ok_seg seg = true.
+Proof. exact has_bseg_o_iff. Qed.
+Print Assumptions C02_url_guard_bseg_meaning.
+
+(* bucket URLs: "/storage/v1/b/<bucket>" and "/storage/v1/b/<bucket>/o" *)
+Theorem C02_url_bucket_forms : forall b, ok_bucket b = true ->
+  parse_gcs_url (a2b "/storage/v1/b/" ++ b) = Some (b, [], false)
+  /\ parse_gcs_url (a2b "/storage/v1/b/" ++ b ++ a2b "/o") = Some (b, [], false).
+Proof. exact url_bucket_forms. Qed.
+Print Assumptions C02_url_bucket_forms.
+
+(* ok_name is needed: '.' stops at a newline, the object name is silently truncated *)
+Theorem C02_url_newline_truncates :
+  let b := a2b "bkt" in let n := [97; 10; 98]%N in
+  ok_bucket b = true /\ ok_name n = false
+  /\ parse_gcs_url (a2b "/storage/v1/b/" ++ b ++ a2b "/o/" ++ n) = Some (b, [97%N], false)
+  /\ parse_gcs_url (a2b "/" ++ b ++ a2b "/" ++ n) = Some (b, [97%N], true).
+Proof. exact url_newline_truncates. Qed.
+Print Assumptions C02_url_newline_truncates.
+
+Theorem C02_url_newline_truncates_general : forall b n1 n2,
+  ok_bucket b = true -> forallb not_nl n1 = true ->
+  parse_gcs_url (a2b "/storage/v1/b/" ++ b ++ a2b "/o/" ++ n1 ++ 10%N :: n2) = Some (b, n1, false).
+Proof. exact url_newline_truncates_general. Qed.
+Print Assumptions C02_url_newline_truncates_general.
+
+(* the correspondence checker answers [] exactly when every observed result is the model's *)
+Theorem C02_check_urls_sound : forall l,
+  check_urls l = [] <-> Forall (fun pr => parse_gcs_url (fst pr) = snd pr) l.
+Proof. exact check_urls_sound. Qed.
+Print Assumptions C02_check_urls_sound.
+
+(* non-vacuity: a realistic bucket and nested name meet every guard above *)
+Example C02_url_guards_nonvacuous :
+  let b := a2b "my-bucket" in let n := a2b "dir/sub dir/2013-tax-returns.pdf" in
+  ok_bucket b = true /\ ok_name n = true /\ no_api_fragment n = true
+  /\ prefix_clean (a2b "/download") = true /\ prefix_clean (a2b "/upload") = true
+  /\ public_guard (a2b "/" ++ b ++ a2b "/" ++ n) = true
+  /\ parse_gcs_url (a2b "/" ++ b ++ a2b "/" ++ n) = Some (b, n, true)
+  /\ parse_gcs_url (a2b "/b/" ++ b ++ a2b "/o/" ++ n) = Some (b, n, false)
+  /\ parse_gcs_url (a2b "/download/storage/v1/b/" ++ b ++ a2b "/o/" ++ n) = Some (b, n, false).
+Proof. exact url_guards_example. Qed.
+
+(* the quirks of the unanchored patterns, computed *)
+Example C02_url_quirks :
+  parse_gcs_url (a2b "/storage/v1/b/bkt/o2/x") = Some (a2b "bkt", [], false)
+  /\ parse_gcs_url (a2b "/storage/v1/b//o/x") = Some ([], [], false)
+  /\ parse_gcs_url (a2b "/storage/v1/b") = Some ([], [], false)
+  /\ parse_gcs_url (a2b "/bkt") = None
+  /\ parse_gcs_url (a2b "/") = None.
+Proof. vm_compute. repeat split. Qed.
